@@ -11,6 +11,8 @@
 //                   = HMAC-SHA256(secret of client #key, latest / previous challenge the client received on connection d)
 //        mal <c> | emp <c>                not-JSON payload | empty payload
 //        ban <ip> | unban <ip> | bl <ip> | unbl <ip> | refill <ip>
+//        blr <g> | unblr <g>               blacklist / remove the CIDR range g (covers addresses 2g and 2g+1)
+//        restart                          a new IPManager over the same storage replaces the live one
 //        exp <k> | del <k> | strip <k>    credential expiry | config deleted | config without encrypted key
 //        sec <k> <u|d|e|l>                stored secret becomes usable | undecryptable (sealed under another master key) |
 //                                         empty ciphertext | legacy (only the deprecated plaintext field)
@@ -85,7 +87,9 @@ func (c *fconn) SetDeadline(t time.Time) error      { return nil }
 func (c *fconn) SetReadDeadline(t time.Time) error  { return nil }
 func (c *fconn) SetWriteDeadline(t time.Time) error { return nil }
 
-func ipStr(i int) string { return fmt.Sprintf("10.7.%d.%d", i/250, i%250+1) }
+// address i lies in range i/2: addresses 2g and 2g+1 are 10.7.g.1 and 10.7.g.2, range g is 10.7.g.0/24
+func ipStr(i int) string    { return fmt.Sprintf("10.7.%d.%d", i/2, i%2+1) }
+func rangeStr(g int) string { return fmt.Sprintf("10.7.%d.0/24", g) }
 
 // ---- one server stack
 
@@ -101,6 +105,7 @@ type stack struct {
 	cc      *managers.BuiltinCloudControl
 	cfg     *repos.ClientConfigRepository
 	skm     *security.SecretKeyManager
+	stor    storage.Storage
 	skmAlt  *security.SecretKeyManager // another master key: what it seals the server cannot open
 	bfp     *security.BruteForceProtector
 	ipm     *security.IPManager
@@ -150,6 +155,7 @@ func newStack(ips []int, nc int, secs string, burst int) (*stack, error) {
 	ctx, cancel := context.WithCancel(context.Background())
 	st := &stack{cancel: cancel, ctx: ctx, ips: ips}
 	stor := storage.NewMemoryStorage(ctx)
+	st.stor = stor
 	repo := repos.NewRepository(stor)
 	st.cc = factories.NewBuiltinCloudControlWithRepo(ctx, managers.DefaultConfig(), stor, repo)
 	st.cfg = repos.NewClientConfigRepository(repo)
@@ -504,6 +510,21 @@ func (st *stack) step(ev []string) (string, error) {
 			return "", err
 		}
 		return st.deliver(c, nil, false), nil
+	case "restart":
+		// the process restarts / another instance takes over: a new IPManager loads the lists from the same storage
+		st.ipm = security.NewIPManager(st.stor, st.ctx)
+		st.sm.SetAuthHandler(server.NewServerAuthHandler(st.cc, st.sm, st.bfp, st.ipm, st.rl, st.skm))
+		return "-", nil
+	case "blr", "unblr":
+		g, err := argn(1)
+		if err != nil || g < 0 {
+			return "", fmt.Errorf("bad event %v", ev)
+		}
+		if ev[0] == "blr" {
+			return "-", st.ipm.AddToBlacklist(rangeStr(g), time.Hour, "verif", "verif")
+		}
+		st.ipm.RemoveFromBlacklist(rangeStr(g))
+		return "-", nil
 	case "ban", "unban", "bl", "unbl", "refill":
 		i, err := argn(1)
 		if err != nil {
@@ -669,7 +690,7 @@ func alphabet() []string {
 			fmt.Sprintf("mal %d", c),
 		)
 	}
-	a = append(a, "ban 0", "unban 0", "bl 0", "exp 0")
+	a = append(a, "ban 0", "unban 0", "bl 0", "exp 0", "blr 0", "restart")
 	return a
 }
 
@@ -826,8 +847,20 @@ func genRandom(r *vc.Rand, n int, emit func(string, string)) {
 				evs = append(evs, fmt.Sprintf("mal %d", c))
 			case x < 79:
 				evs = append(evs, fmt.Sprintf("emp %d", c))
-			case x < 84:
+			case x < 82:
 				evs = append(evs, fmt.Sprintf("%s %d", vc.Pick(r, []string{"ban", "unban", "ban", "unban", "bl", "unbl"}), r.Intn(nip)))
+			case x < 84:
+				switch r.Intn(4) {
+				case 0:
+					evs = append(evs, "restart")
+				case 1:
+					evs = append(evs, fmt.Sprintf("unblr %d", r.Intn(nip/2+1)))
+				default:
+					evs = append(evs, fmt.Sprintf("blr %d", r.Intn(nip/2+1)))
+					if r.Bool() {
+						evs = append(evs, "restart")
+					}
+				}
 			case x < 86:
 				evs = append(evs, fmt.Sprintf("refill %d", r.Intn(nip)))
 			case x < 89:
